@@ -3,7 +3,7 @@ CONSTANTS
   Layout = "joint"
   Ids = {"a", "b"}
   ETs = {"0", "2", "nan"}
-  EBs = {0, 1}
+  EBs = {0, 1, 2}
   Covs = {"none"}
   Ages = {1, 2, 3}
   MaxRows = 3
